@@ -100,6 +100,7 @@ def parseStructTag (tag : String) : Option StructTag :=
       | 2 =>
         match f with
         | "opt" => go 3 rest t
+        | "req" => go 3 rest t
         | "rep" => go 3 rest { t with repeated := true }
         | _ => none
       | _ => some t      -- name=, json=, proto3 …: never an error
